@@ -505,15 +505,19 @@ class NamedTupleAdapter(GenericCallAdapter):
     @classmethod
     def arguments(cls, value: IsNamedTuple):
 
+        # default values are marked, not left out: the stored copy of the value
+        # is rebuilt from these arguments and has to keep Is(...) parts inside of them
         return (
             [],
             {
-                field: Argument(value=getattr(value, field))
-                for field in value._fields
-                if field not in value._field_defaults
-                or not is_default_value(
-                    value._field_defaults[field], getattr(value, field)
+                field: Argument(
+                    value=getattr(value, field),
+                    is_default=field in value._field_defaults
+                    and is_default_value(
+                        value._field_defaults[field], getattr(value, field)
+                    ),
                 )
+                for field in value._fields
             },
         )
 
